@@ -470,7 +470,8 @@ pub fn scenario_nodes(s: &Scenario) -> Vec<Node> {
 /// input, "flat" queries that re-execute without changing, and tops that read several of them in
 /// order.  Histories toggle switches and flat inputs together, query the tops, then change what is
 /// under the firewalls and query the tops again.
-pub fn gen_scenario_tfc(r: &mut Rng) -> Scenario {
+/// `proj`: some ghosts are PROJECTIONS over firewalls (their switch is a firewall too); `proj_links`: projections over those projections.
+pub fn gen_scenario_tfc(r: &mut Rng, proj: bool, proj_links: bool) -> Scenario {
     let n_fw = r.range(1, 3) as u32;
     let n_ghost = r.range(1, 3) as u32;
     let n_flat = r.range(1, 2) as u32;
@@ -484,8 +485,25 @@ pub fn gen_scenario_tfc(r: &mut Rng) -> Scenario {
     let mut prog = Program::default();
     for j in 0..n_fw { prog.exprs.insert(fw(j), Expr::Mod(rd(inp(j)), *r.pick(&[2i64, 3, 5]))); }
     let mut mids: Vec<Node> = Vec::new();
+    let prj = |i: u32| Node { kind: Kind::Projection, idx: i };
+    let mut n_prj = 0u32;
     for k in 0..n_ghost {
         let f = fw(r.below(n_fw as u64) as u32);
+        if proj && r.chance(2, 3) {
+            // the switch goes through a firewall of its own (a projection may only read firewalls / projections)
+            let fsw = fw(n_fw + k);
+            prog.exprs.insert(fsw, Expr::Mod(rd(inp(sw0 + k)), 4));
+            let other: Expr = if r.chance(1, 3) { Expr::Const(0) } else { Expr::Read(fw(r.below(n_fw as u64) as u32)) };
+            let ghost = Expr::If(Box::new(Expr::Mod(rd(fsw), 2)), rd(f), Box::new(other));
+            let body = if r.chance(1, 3) { Expr::Add(Box::new(Expr::Const(r.below(4) as i64)), Box::new(Expr::Mul(Box::new(Expr::Const(0)), Box::new(ghost)))) }
+                       else { Expr::Add(Box::new(Expr::Const(r.below(4) as i64)), Box::new(ghost)) };
+            let mut p = prj(n_prj); n_prj += 1;
+            prog.exprs.insert(p, body);
+            if proj_links && r.chance(1, 2) { let q = prj(n_prj); n_prj += 1; prog.exprs.insert(q, Expr::Add(rd(p), Box::new(Expr::Const(0)))); p = q; }
+            // tops are normal queries; sometimes put a normal query in between
+            if r.chance(1, 2) { prog.exprs.insert(nrm(k), Expr::Add(rd(p), Box::new(Expr::Const(0)))); mids.push(nrm(k)); } else { mids.push(p); }
+            continue;
+        }
         let other: Expr = if r.chance(1, 2) { Expr::Const(0) } else { Expr::Read(fw(r.below(n_fw as u64) as u32)) };
         let ghost = Expr::If(Box::new(Expr::Mod(rd(inp(sw0 + k)), 2)), rd(f), Box::new(other));
         // either value-neutral (0 * ghost) or value-carrying: with two firewalls that currently agree the
@@ -498,17 +516,31 @@ pub fn gen_scenario_tfc(r: &mut Rng) -> Scenario {
         let body = Expr::Add(Box::new(Expr::Const(r.below(4) as i64)), Box::new(Expr::Mul(Box::new(Expr::Const(0)), rd(inp(fl0 + k)))));
         prog.exprs.insert(nrm(n_ghost + k), body); mids.push(nrm(n_ghost + k));
     }
+    // sometimes a layer of links between the ghosts and the tops (value-preserving or summing), so that a
+    // switch below has to travel through queries that were verified on behalf of another top
+    let mut next = n_ghost + n_flat;
+    if r.chance(1, 2) {
+        let n_link = r.range(1, 3) as u32;
+        let mut links = Vec::new();
+        for _ in 0..n_link {
+            let a = *r.pick(&mids);
+            let e = if r.chance(1, 2) { Expr::Add(rd(a), Box::new(Expr::Const(0))) } else { Expr::Add(rd(a), rd(*r.pick(&mids))) };
+            let n = nrm(next); next += 1;
+            prog.exprs.insert(n, e); links.push(n);
+        }
+        mids.extend(links);
+    }
     let mut tops = Vec::new();
     for t in 0..n_top {
         let k = r.range(2, mids.len() as u64 + 1) as usize;
         let mut e = Expr::Const(t as i64);
         for _ in 0..k { e = Expr::Add(Box::new(e), rd(*r.pick(&mids))); }
         // sometimes a second level, so that the bookkeeping has to travel further up
-        let n = nrm(n_ghost + n_flat + t);
+        let n = nrm(next + t);
         prog.exprs.insert(n, e); tops.push(n);
     }
     if r.chance(1, 2) {
-        let n = nrm(n_ghost + n_flat + n_top);
+        let n = nrm(next + n_top);
         let mut e = Expr::Const(0);
         for t in &tops { e = Expr::Add(Box::new(e), rd(*t)); }
         prog.exprs.insert(n, e); tops.push(n);
